@@ -113,6 +113,7 @@ contract(
     props=["C01"],
     calls={"builtins:ValueError": "c01:loop_effect_hmtx_metrics"},
     params={"self": Ref("C01_Compiler")},
+    modifies=["TTFont.tbl:hmtx", "table_hmtx.metrics"],  # frame: the font's 'hmtx' slot and the (new) table's metrics
     requires=[
         "'hmtx' in self.tables",
         # the code indexes glyphBoundingBoxes with every glyph name (KeyError otherwise): from the code
@@ -183,6 +184,7 @@ contract(
     props=["C01"],
     params={"self": Ref("C01_Compiler"), "font": Ref("C01_Font"), "roundTolerance": Opt(REAL), "optimizeCFF": BOOL},
     globals={"super": Val.obj(FuncRef(None, "c01.super_init"))},
+    modifies=["self.roundTolerance", "self.optimizeCFF", "self._defaultAndNominalWidths"],  # (of THIS object only; the base-class part is the frame summary above)
     ensures={
         "tolerance": "self.roundTolerance == (0.5 if roundTolerance is None else roundTolerance)",
         "optimize-kept": "self.optimizeCFF == optimizeCFF",
@@ -713,8 +715,8 @@ contract(
         "unchanged-when-false": "implies(not result, len(glyph.log_pens) == len(old(glyph.log_pens)) and glyph.components == old(glyph.components))",
         "only-non-export-bases": f"all(glyph.log_pens[k].include == self.options.skipExportGlyphs and not glyph.log_pens[k].decomposeNested for k in {_NEWPENS})",
     },
-    raises={"MissingComponentError": "any(c.baseGlyph in self.options.skipExportGlyphs for c in glyph.components)"
-            " and any(c.baseGlyph in self.options.skipExportGlyphs and c.baseGlyph not in self.context.glyphSet for c in glyph.components)"},
+    # iff a base that is to be inlined (a non-export glyph) is missing from the glyph set
+    raises={"MissingComponentError": "any(c.baseGlyph in self.options.skipExportGlyphs and c.baseGlyph not in self.context.glyphSet for c in glyph.components)"},
     canaries={"never-changes": "not result"},
 )
 
